@@ -47,7 +47,10 @@ CONSTANTS
     MaxOps,     \* bound on the number of Enter actions
     MaxOpen,    \* bound on simultaneously open entries
     MaxSets,    \* bound on the number of load / cpu sample changes after Init
-    MaxTicks    \* bound on the number of clock advances
+    MaxTicks,   \* bound on the number of clock advances
+    MaxTraced,  \* bound on the number of open entries carrying a TraceError at the same time
+    ExitKinds,  \* ways Exit may be called: subset of BOOLEAN (TRUE = Exit(WithError(err)))
+    LateKinds   \* calls explored on completed entries: subset of {"exit", "trace"}
 
 VARIABLES
     now,    \* current time (ms, > 0)
@@ -122,6 +125,7 @@ Exit(e, werr) ==
 \* api.TraceError on an open entry: nothing the gate reads changes now; the completion will carry the error
 TraceErr(e) ==
     /\ e \in open /\ ~e.terr
+    /\ Cardinality({ x \in open : x.terr }) < MaxTraced
     /\ open' = (open \ {e}) \cup {[e EXCEPT !.terr = TRUE]}
     /\ last' = NoLast
     /\ h' = Append(h, [op |-> "trace", id |-> e.id])
@@ -131,9 +135,8 @@ TraceErr(e) ==
 \* (a stuttering step of `view`; it only extends the scenario h)
 Late(a, how) ==
     /\ a \in adm /\ a.tout # -1
-    /\ last' = NoLast
     /\ h' = Append(h, [op |-> "late", id |-> a.id, how |-> how])
-    /\ UNCHANGED <<now, rules, ref, conc, open, adm, nid, load, cpu, nset, ntick>>
+    /\ UNCHANGED <<now, rules, ref, conc, open, adm, nid, load, cpu, nset, ntick, last>>
 
 \* an entry of the plain history that can still matter: open, or admitted / completed inside the 1 s view
 InView(t, at) == at >= 0 /\ Align(at, GPBL) >= Align(t, GPBL) - GVI + GPBL
@@ -162,9 +165,9 @@ HasMt(m) == \E i \in DOMAIN rules : rules[i].mt = m
 
 Next ==
     \/ \E ty \in {"in", "out"}, b \in Batches : Enter(ty, b)
-    \/ \E e \in open, werr \in BOOLEAN : Exit(e, werr)
+    \/ \E e \in open, werr \in ExitKinds : Exit(e, werr)
     \/ \E e \in open : TraceErr(e)
-    \/ \E a \in adm, how \in {"exit", "trace"} : Late(a, how)
+    \/ \E a \in adm, how \in LateKinds : Late(a, how)
     \/ \E d \in Steps : Tick(d)
     \/ \E v \in Samples : HasMt("load") /\ SetLoad(v)
     \/ \E v \in Samples : HasMt("cpu") /\ SetCpu(v)
